@@ -369,7 +369,10 @@ class ProcessRunner(Runner, ABC):
         self._consume_log_queue()
         done, _ = self.executor.wait(list(self.future_to_task.keys()), timeout_seconds=timeout_seconds)
         for future in done:
-            task = self.future_to_task[future]
+            # Stop tracking the future before yielding its task, so
+            # that a consumer that abandons this generator (e.g. on
+            # KeyboardInterrupt) is never handed the same task again.
+            task = self.future_to_task.pop(future)
             if future.cancelled:
                 continue
             try:
@@ -379,11 +382,6 @@ class ProcessRunner(Runner, ABC):
             else:
                 self.results_map[task] = task_result
                 yield (task, task_result.meta)
-        self.future_to_task = {
-            future: self.future_to_task[future]
-            for future in self.future_to_task
-            if future not in done
-        }
 
     def cancel(self) -> None:
         self.executor.cancel()
